@@ -406,7 +406,21 @@ async function run_read(req) {
 }
 
 
+async function run_query_csv(req) {
+    // rbql_csv.query_csv on real files (sources are hashed by the Python side before and after)
+    let warnings = [];
+    try {
+        await rbql_csv.query_csv(req.query, req.input_path, req.delim, req.policy, req.output_path, req.delim, req.policy, req.encoding, warnings, req.with_headers || false, null, '', req.bulk_read ? {bulk_read: true} : null);
+        return {outcome: ['ok'], warnings: warnings};
+    } catch (e) {
+        return {outcome: describe_error(e), warnings: warnings};
+    }
+}
+
+
 async function handle(req) {
+    if (req.kind == 'query_csv')
+        return await run_query_csv(req);
     if (req.kind == 'ping')
         return {pong: true, node: process.version, rbql: rbql.version};
     if (req.kind == 'query')
